@@ -9,6 +9,25 @@
 (*  (b) with -simulate to generate edit/backup histories that the Go       *)
 (*      driver replays into the real backup command (hist is printed by    *)
 (*      the Finish action).                                                *)
+(* A history also fixes                                                    *)
+(*  - the TARGET STYLE of its backups (how the source directory is named   *)
+(*    on the command line, i.e. what the root tree of a snapshot lists):   *)
+(*      "dir"   cd base; backup src              root tree = {src}         *)
+(*      "deep"  cd base; backup i1/i2/i3/src     intermediate directories  *)
+(*      "dot"   cd src;  backup .                root tree = entries of src*)
+(*      "list"  cd src;  backup <top-level entries present now>, parent =  *)
+(*              latest snapshot of the host (the target list changes)      *)
+(*  - the size class of the files (big: several read buffers / chunks)     *)
+(*  - at most one FAULT, planned for one backup round:                     *)
+(*      "readerr"   a transient read error in the middle of one regular    *)
+(*                  file that this backup reads: the file is left out of   *)
+(*                  the snapshot (that backup is not judged; the snapshot  *)
+(*                  is a parent later on)                                  *)
+(*      "treeloss"  one tree blob of the parent snapshot was lost          *)
+(*      "dataloss"  the data blobs of the parent snapshot were lost        *)
+(*    (loss = bit rot in a pack + `repair packs` / removed packs + `repair *)
+(*    index`).  The statement puts no condition on the parent snapshot, so *)
+(*    the backup with this parent still has to store the full tree.        *)
 (***************************************************************************)
 EXTENDS Fn_Incremental, TLC, Json, SequencesExt
 
@@ -16,12 +35,17 @@ CONSTANTS Paths,      \* subset of {"a", "b", "d", "d/x"}
           EditPlan,   \* sequence: EditPlan[k] = maximal number of edits before the k-th backup of a history
           Twin,       \* TRUE: parent based backups are taken even when the premise is violated (negative twin)
           Emit,       \* TRUE: print the history when it is complete
-          Modes       \* subset of {"inc", "incskip", "force", "forceskip"}
+          Modes,      \* subset of {"inc", "incskip", "force", "forceskip"}
+          FlagSet,    \* subset of Flags
+          Targets,    \* subset of {"dir", "deep", "dot", "list"}
+          Bigs,       \* subset of BOOLEAN
+          FaultKinds, \* subset of {"readerr", "treeloss", "dataloss"}
+          MaxVictim   \* fault plans choose a victim number in 0..MaxVictim
 
-VARIABLES src, clock, flags, group, round, todo, hist, ok
+VARIABLES src, clock, flags, group, round, todo, hist, ok, target, big, fplan
 
-vars == <<src, clock, flags, group, round, todo, hist, ok>>
-View == <<src, clock, flags, group, round, todo, ok>>
+vars == <<src, clock, flags, group, round, todo, hist, ok, target, big, fplan>>
+View == <<src, clock, flags, group, round, todo, ok, target, big, fplan>>
 
 Absent == [kind |-> "none", content |-> 0, size |-> 0, mtime |-> 0, ctime |-> 0, inode |-> 0, perm |-> 0]
 Dir    == [Absent EXCEPT !.kind = "dir"]
@@ -37,6 +61,7 @@ Skips(m) == m \in {"incskip", "forceskip"}
 
 Rounds == Len(EditPlan)
 \* plans used by the configurations (TLC configuration files cannot contain tuples)
+Plan00 == <<0, 0>>
 Plan01 == <<0, 1>>
 Plan11 == <<1, 1>>
 Plan111 == <<1, 1, 1>>
@@ -47,9 +72,20 @@ InitSrc == [p \in Paths |-> IF p = "d" THEN Dir
                             ELSE IF p = "a" THEN [NewFile(1) EXCEPT !.size = 3]
                             ELSE IF p = "b" THEN NewFile(2) ELSE [NewFile(3) EXCEPT !.size = 2]]
 
+NoFault == [round |-> 0, kind |-> "none", v |-> 0]
+FaultPlans == {NoFault} \cup [round : 1..Rounds, kind : FaultKinds, v : 0..MaxVictim]
+
 Init ==
-  /\ src = InitSrc /\ clock = 4 /\ flags \in Flags /\ group = <<>> /\ round = 0 /\ todo = 0
+  /\ src = InitSrc /\ clock = 4 /\ flags \in FlagSet /\ group = <<>> /\ round = 0 /\ todo = 0
   /\ hist = <<>> /\ ok = TRUE
+  /\ target \in Targets /\ big \in Bigs /\ fplan \in FaultPlans
+
+\* the root tree of a "dot" / "list" backup lists the top-level entries themselves: such a backup needs one
+TopLevel(s) == {p \in Paths : Up(p) = "" /\ s[p].kind # "none"}
+\* number of tree blobs of a snapshot of state s (one per directory, the root tree included)
+NTrees(s) == Cardinality({p \in Paths : s[p].kind = "dir"})
+             + (CASE target = "deep" -> 5 [] target = "dir" -> 2 [] OTHER -> 1)
+PathOrder == <<"a", "b", "d", "d/x">>      \* the order in which the archiver visits the paths
 
 F(p) == src[p]
 t == clock
@@ -61,7 +97,8 @@ TreeOf(s) == SetToSeq({[path |-> p, kind |-> s[p].kind, content |-> s[p].content
                         p \in {q \in Paths : s[q].kind # "none"}})
 
 EditRec(op, p, q) == [op |-> op, p |-> p, q |-> q, t |-> t, n |-> src'[p], m |-> IF q = "" THEN Absent ELSE src'[q],
-                      mode |-> "", premise |-> TRUE, has_parent |-> FALSE, omitted |-> FALSE, tree |-> <<>>]
+                      mode |-> "", premise |-> TRUE, has_parent |-> FALSE, omitted |-> FALSE, tree |-> <<>>,
+                      fault |-> "none", fp |-> "", fv |-> 0, stored |-> <<>>]
 
 Set1(p, n) == src' = [src EXCEPT ![p] = n]
 
@@ -93,37 +130,51 @@ Ops2 == {"Rename", "Swap"}
 ChooseEdits ==
   /\ todo = 0 /\ round < Rounds
   /\ \E k \in 1..(EditPlan[round + 1] + 1) : todo' = k
-  /\ UNCHANGED <<src, clock, flags, group, round, hist, ok>>
+  /\ UNCHANGED <<src, clock, flags, group, round, hist, ok, target, big, fplan>>
 
 Edit ==
   /\ todo > 1
   /\ \/ \E op \in Ops1, p \in Paths : EditOp(op, p, "") /\ hist' = Append(hist, EditRec(op, p, ""))
      \/ \E op \in Ops2, p \in Paths, q \in Paths : EditOp(op, p, q) /\ hist' = Append(hist, EditRec(op, p, q))
   /\ todo' = todo - 1 /\ clock' = clock + 1
-  /\ UNCHANGED <<flags, group, round, ok>>
+  /\ UNCHANGED <<flags, group, round, ok, target, big, fplan>>
 
 Backup ==
   /\ todo = 1
+  /\ target \in {"dot", "list"} => TopLevel(src) # {}
   /\ \E mode \in Modes :
        LET hasPar  == UsesParent(mode) /\ Len(group) > 0
            par     == IF hasPar THEN group[Len(group)] ELSE [p \in Paths |-> Absent]
            prem    == ~hasPar \/ Premise(src, par, flags)
            new     == IF hasPar THEN IncTree(src, par, flags) ELSE src
-           omitted == Skips(mode) /\ hasPar /\ par = new
+           \* the fault planned for this round, as far as it applies
+           planned == fplan.round = round + 1
+           files   == SelectSeq(PathOrder, LAMBDA p : p \in Paths /\ src[p].kind = "file")
+           rp      == IF planned /\ fplan.kind = "readerr" /\ Len(files) > 0 THEN files[(fplan.v % Len(files)) + 1] ELSE ""
+           \* a file is read iff its content is not taken from the parent
+           isRead  == rp # "" /\ (~hasPar \/ par[rp].kind # "file" \/ Detectable(src[rp], par[rp], flags))
+           fk      == IF isRead THEN "readerr"
+                      ELSE IF planned /\ fplan.kind \in {"treeloss", "dataloss"} /\ hasPar THEN fplan.kind
+                      ELSE "none"
+           fv      == IF fk = "treeloss" THEN fplan.v % NTrees(par) ELSE 0
+           stored  == IF fk = "readerr" THEN [new EXCEPT ![rp] = Absent] ELSE new
+           omitted == Skips(mode) /\ hasPar /\ par = stored
        IN /\ Twin \/ prem
-          /\ group' = IF omitted THEN group ELSE Append(group, new)
-          \* incremental tree = full tree; a skipped snapshot hides no change
-          /\ ok' = (ok /\ new = src /\ (omitted => par = src))
+          /\ group' = IF omitted THEN group ELSE Append(group, stored)
+          \* incremental tree = full tree; a skipped snapshot hides no change (a backup that met a read error is not
+          \* judged - but its snapshot is the parent of the next one, which is)
+          /\ ok' = (ok /\ (fk # "readerr" => (new = src /\ (omitted => par = src))))
           /\ hist' = Append(hist, [op |-> "backup", p |-> "", q |-> "", t |-> 0, n |-> Absent, m |-> Absent, mode |-> mode,
-                                   premise |-> prem, has_parent |-> hasPar, omitted |-> omitted, tree |-> TreeOf(src)])
+                                   premise |-> prem, has_parent |-> hasPar, omitted |-> omitted, tree |-> TreeOf(src),
+                                   fault |-> fk, fp |-> IF fk = "readerr" THEN rp ELSE "", fv |-> fv, stored |-> TreeOf(stored)])
   /\ todo' = 0 /\ round' = round + 1
-  /\ UNCHANGED <<src, clock, flags>>
+  /\ UNCHANGED <<src, clock, flags, target, big, fplan>>
 
 Finish ==
   /\ todo = 0 /\ round = Rounds
   /\ round' = Rounds + 1
-  /\ Emit => PrintT(<<"HIST", ToJson([flags |-> flags, paths |-> SetToSeq(Paths), ops |-> hist])>>)
-  /\ UNCHANGED <<src, clock, flags, group, todo, hist, ok>>
+  /\ Emit => PrintT(<<"HIST", ToJson([flags |-> flags, target |-> target, big |-> big, paths |-> SetToSeq(Paths), ops |-> hist])>>)
+  /\ UNCHANGED <<src, clock, flags, group, todo, hist, ok, target, big, fplan>>
 
 Next == ChooseEdits \/ Edit \/ Backup \/ Finish
 Spec == Init /\ [][Next]_vars
@@ -133,4 +184,8 @@ IncEqualsFull == ok
 \* vacuity controls (expected to be violated = reachable): a parent based backup that reuses content, an omitted snapshot
 NeverReuses == ~(\E k \in DOMAIN hist : hist[k].op = "backup" /\ hist[k].has_parent)
 NeverOmits  == ~(\E k \in DOMAIN hist : hist[k].op = "backup" /\ hist[k].omitted)
+\* a judged backup whose parent is the snapshot of a backup that met a read error; a judged backup with a damaged parent
+NeverAfterReadErr == ~(\E k, j \in DOMAIN hist : k < j /\ hist[k].op = "backup" /\ hist[k].fault = "readerr" /\ ~hist[k].omitted
+                                                /\ hist[j].op = "backup" /\ hist[j].has_parent /\ hist[j].fault = "none")
+NeverDamagedParent == ~(\E k \in DOMAIN hist : hist[k].op = "backup" /\ hist[k].fault \in {"treeloss", "dataloss"})
 =============================================================================
